@@ -78,6 +78,8 @@ pub struct Phase {
     /// probability of a large extra delay (far reordering)
     pub far: f64,
     pub blackhole: [bool; 2],
+    /// probability that an ECN-capable datagram is marked Congestion Experienced
+    pub ce: f64,
 }
 
 impl Phase {
@@ -90,6 +92,7 @@ impl Phase {
             truncate: 0.0,
             far: 0.0,
             blackhole: [false; 2],
+            ce: 0.0,
         }
     }
     pub fn is_clean(&self) -> bool {
